@@ -8,13 +8,14 @@ import (
 // runDomains is the body of C05: every endpoint x domain class x admin-IP configuration x source address.
 func runDomains(t *testing.T, rc *RunCtx) {
 	ch := rc.Ch
-	ipPool := []string{"10.0.0.1", "10.0.0.2", "192.168.7.9", "::1", "10.0.0.1 ", "10.0.0.01", "10.0.0.1:443"}
+	ipPool := []string{"10.0.0.1", "10.0.0.2", "192.168.7.9", "::1", "2001:db8::1", "fe80::1",
+		"10.0.0.1 ", "10.0.0.01", "10.0.0.1:443", "10.0.0.3", "10.0.1.1", "::2", "2001:db8::2", "2001:db8:ffff:1::99", "2001:db9::1", "fe80::2", "::ffff:10.0.0.1"}
 	var admin []string
 	switch ch.Pick(4, 0) {
 	case 1:
-		admin = []string{ipPool[ch.Pick(4, 0)]}
+		admin = []string{ipPool[ch.Pick(6, 0)]}
 	case 2, 3:
-		for i := 0; i < 4; i++ {
+		for i := 0; i < 6; i++ {
 			if ch.Pick(2, 0) == 1 {
 				admin = append(admin, ipPool[i])
 			}
